@@ -6,6 +6,7 @@
 import ast
 
 from ..astutil import U, assignments, bind_args, calls, callee_name, const_str, own_walk
+from ..arrnf import ANF, C, base_of, contains, key, norm_cond, roots, show, walk
 from ..callgraph import CallGraph
 from ..source import AnalysisError
 
@@ -52,16 +53,27 @@ def nonconvergence_classes(ix):
     return (raised & defined), len(reach)
 
 
-def _errors_tuple(ix, fi):
-    """names in the tuple assigned to <x>['errors'] in function fi"""
+def _errors_stores(r):
+    """[(class names, store event)] for every store of an `errors` entry in a function summary"""
     out = []
-    for n in own_walk(fi.node):
-        if isinstance(n, ast.Assign) and isinstance(n.targets[0], ast.Subscript) and const_str(n.targets[0].slice) == "errors":
-            v = n.value
-            if isinstance(v, ast.Call) and callee_name(v) == "tuple" and v.args:
-                v = v.args[0]
-            if isinstance(v, (ast.Tuple, ast.List)):
-                out.append(([U(e).split(".")[-1] for e in v.elts], n))
+    for s_ in r.stores():
+        if s_.index == (C("errors"),):
+            v = s_.value
+            if v[0] == "call" and v[1] == ("x", "builtins.tuple") and v[2]:
+                v = v[2][0]
+            if v[0] in ("tuple", "list"):
+                out.append(([x[1].split(".")[-1] for x in v[1] if x[0] in ("f", "x", "n")], s_))
+    return out
+
+
+def _is_pipeflow(t):
+    return t == ("f", P + ".pipeflow")
+
+
+def _bound(ev, names):
+    """arguments of a recorded call by the callee's (external) parameter names"""
+    out = dict(zip(names, ev.args))
+    out.update({k: v for k, v in ev.kw if k != "**"})
     return out
 
 
@@ -75,77 +87,103 @@ def r13_1(run):
     f = ix.func(RC + ".prepare_run_ctrl")
     run.analysed(f)
     w = run.where(f, f.node)
-    runs = [n for n in own_walk(f.node) if isinstance(n, ast.Assign) and isinstance(n.targets[0], ast.Subscript) and const_str(n.targets[0].slice) == "run"]
-    ok = False
-    if len(runs) == 1:
-        v = runs[0].value
-        if isinstance(v, ast.Attribute) and isinstance(v.value, ast.Name):
-            r = ix.resolve_in(f, v.value.id)
-            if r and r[0] == "module":
-                rr = ix.resolve(r[1], v.attr)
-                ok = bool(rr and rr[0] == "func" and rr[1].qualname == P + ".pipeflow")
-        elif isinstance(v, ast.Name):
-            rr = ix.resolve_in(f, v.id)
-            ok = bool(rr and rr[0] == "func" and rr[1].qualname == P + ".pipeflow")
-    run.ob("control.prepare_run_ctrl|run=pipeflow", ok, "ctrl_variables['run'] is pandapipes.pipeflow", w)
-    et = _errors_tuple(ix, f)
+    r = ANF(ix, f).run()
+    runs = [s_ for s_ in r.stores() if s_.index == (C("run"),)]
+    run.ob("control.prepare_run_ctrl|run=pipeflow", len(runs) == 1 and _is_pipeflow(runs[0].value),
+           "ctrl_variables['run'] is pandapipes.pipeflow", w)
+    et = _errors_stores(r)
     run.ob("control.prepare_run_ctrl|errors", len(et) == 1 and E <= set(et[0][0]),
            "ctrl_variables['errors'] contains %s" % sorted(E), w, detail=str([e for e, _ in et]))
-    # the errors are set on every path (also when ctrl_variables is passed in)
     if et:
-        from ..pathcond import path_condition, parents
-        pc = path_condition(f.node, et[0][1], parents(f.node))
-        run.ob("control.prepare_run_ctrl|errors-unconditional", not pc, "the error classes are registered on every path", w, detail=str(sorted(pc)))
+        run.ob("control.prepare_run_ctrl|errors-unconditional", not et[0][1].cond, "the error classes are registered on every path", w,
+               detail=str([(show(c)[:60], p) for c, p in et[0][1].cond]))
     # time series
     f = ix.func(TS + ".init_time_series")
     run.analysed(f)
     w = run.where(f, f.node)
-    rdef = [v for _, v, _ in assignments(f.node, "run")]
-    ok = len(rdef) == 1 and isinstance(rdef[0], ast.Call) and callee_name(rdef[0]) == "pop" and const_str(rdef[0].args[0]) == "run" \
-        and len(rdef[0].args) == 2 and isinstance(rdef[0].args[1], ast.Name)
-    if ok:
-        rr = ix.resolve_in(f, rdef[0].args[1].id)
-        ok = bool(rr and rr[0] == "func" and rr[1].qualname == P + ".pipeflow")
-    run.ob("timeseries.init_time_series|run-default=pipeflow", ok, "the default run function of a time series is pandapipes.pipeflow", w)
-    c = [x for x in calls(f.node) if callee_name(x) == "init_time_series_pp"]
-    ok = len(c) == 1 and [U(a) for a in c[0].args[:4]] == ["net", "time_steps", "continue_on_divergence", "verbose"] \
-        and any(k.arg == "run" and U(k.value) == "run" for k in c[0].keywords)
+    r = ANF(ix, f).run()
+    cs = [c for c in r.calls() if c.fn[0] == "x" and c.fn[1].endswith("run_time_series.init_time_series")]
+    _shape(len(cs) == 1, "init_time_series wraps pandapower's init_time_series")
+    a_ = _bound(cs[0], ("net", "time_steps", "continue_on_divergence", "verbose"))
+    rv = a_.get("run")
+    ok = rv is not None and rv[0] == "call" and rv[1][0] == "attr" and rv[1][2] in ("pop", "get") and rv[2][:1] == (C("run"),) \
+        and len(rv[2]) == 2 and _is_pipeflow(rv[2][1])
+    run.ob("timeseries.init_time_series|run-default=pipeflow", ok or (rv is not None and _is_pipeflow(rv)),
+           "the default run function of a time series is pandapipes.pipeflow", w, detail=show(rv)[:100] if rv else None)
+    ps = f.params()
+    ok = all(a_.get(k) == ("n", k) for k in ("net", "time_steps", "continue_on_divergence", "verbose")) and any(k == "**" for k, _ in cs[0].kw)
     run.ob("timeseries.init_time_series|forwards-arguments", ok,
-           "time_steps, continue_on_divergence, verbose and run are forwarded to pandapower's init_time_series", w)
-    et = _errors_tuple(ix, f)
-    run.ob("timeseries.init_time_series|errors", len(et) == 1 and E <= set(et[0][0]), "ts_variables['errors'] contains %s" % sorted(E), w,
-           detail=str([e for e, _ in et]))
+           "time_steps, continue_on_divergence, verbose and the keyword arguments are forwarded to pandapower's init_time_series", w)
+    et = _errors_stores(r)
+    run.ob("timeseries.init_time_series|errors", len(et) == 1 and E <= set(et[0][0]) and not et[0][1].cond
+           and key(base_of(et[0][1].base)) == key(cs[0].term),
+           "ts_variables['errors'] of the returned variables contains %s" % sorted(E), w, detail=str([e for e, _ in et]))
+    rets = r.returns()
+    run.ob("timeseries.init_time_series|returns-those-variables", len(rets) == 1 and key(base_of(rets[0].value)) == key(cs[0].term),
+           "the variables with the registered errors are what is returned", w)
     f = ix.func(TS + ".run_timeseries")
-    c = [x for x in calls(f.node) if callee_name(x) == "init_time_series"]
-    ok = len(c) == 1 and [U(a) for a in c[0].args] == ["net", "time_steps", "continue_on_divergence", "verbose"] and \
-        any(k.arg is None and U(k.value) == "kwargs" for k in c[0].keywords)
+    run.analysed(f)
+    r = ANF(ix, f).run()
+    its = ix.func(TS + ".init_time_series")
+    cs = [c for c in r.calls() if c.fn == ("f", its.qualname)]
+    ok = len(cs) == 1
+    if ok:
+        a_ = _bound(cs[0], its.params())
+        ok = all(a_.get(k) == ("n", k) for k in ("net", "time_steps", "continue_on_divergence", "verbose")) and any(k == "**" for k, _ in cs[0].kw)
     run.ob("timeseries.run_timeseries|forwards-arguments", ok, "run_timeseries forwards its named arguments and kwargs", run.where(f, f.node))
     pnc = ix.func(TS + ".pf_not_converged")
-    ok = any(isinstance(n, ast.If) and U(n.test).replace(" ", "").replace('"', "'") == "notts_variables['continue_on_divergence']"
-             and any(isinstance(x, ast.Raise) for x in n.body) for n in own_walk(pnc.node))
-    run.ob("timeseries.pf_not_converged|raises-unless-continue", ok,
+    run.analysed(pnc)
+    r = ANF(ix, pnc).run()
+    tsv = pnc.params()[1] if len(pnc.params()) > 1 else "ts_variables"
+    good = [e for e in r.raises() if len(e.cond) == 1 and norm_cond(*e.cond[0]) == (("idx", ("n", tsv), (C("continue_on_divergence"),)), False)]
+    run.ob("timeseries.pf_not_converged|raises-unless-continue", len(good) == 1 and len(r.raises()) == 1,
            "a diverged step is re-raised unless continue_on_divergence", run.where(pnc, pnc.node))
     # multi-energy drivers
     f = ix.func(MRC + ".prepare_run_ctrl")
     run.analysed(f)
-    et = _errors_tuple(ix, f)
-    run.ob("multinet.prepare_run_ctrl|errors", len(et) == 1 and E <= set(et[0][0]),
+    r = ANF(ix, f).run()
+    et = _errors_stores(r)
+    run.ob("multinet.prepare_run_ctrl|errors", len(et) == 1 and E <= set(et[0][0]) and not et[0][1].cond,
            "the multinet's top-level ctrl_variables['errors'] (caught by run_time_step) covers %s of its pandapipes members" % sorted(E),
            run.where(f, f.node), detail=str([e for e, _ in et]))
     g = ix.func(MRC + ".prepare_ctrl_variables_for_net")
     run.analysed(g)
-    src = U(g.node)
-    ok = "prepare_run_ctrl_ppipes(net, None, **kwargs)" in src and "isinstance(net, ppipes.pandapipesNet)" in src
+    r = ANF(ix, g).run()
+    cs = [c for c in r.calls() if c.fn == ("f", RC + ".prepare_run_ctrl")]
+    ok = len(cs) == 1 and len(cs[0].cond) >= 1
+    if ok:
+        c0, p0 = norm_cond(*cs[0].cond[-1])
+        ok = p0 and c0[0] == "call" and c0[1] == ("x", "builtins.isinstance") and c0[2][1][0] == "f" and c0[2][1][1].endswith(".pandapipesNet") \
+            and key(c0[2][0]) == key(cs[0].args[0]) and cs[0].args[1:2] == (C(None),)
     run.ob("multinet.prepare_ctrl_variables_for_net|pandapipes-members", ok,
            "pandapipes members get their run function and error classes from pandapipes.control.prepare_run_ctrl", run.where(g, g.node))
+    if cs:
+        for k in ("run", "errors"):
+            st = [s_ for s_ in r.stores() if s_.index == (C(k),)]
+            ok = len(st) == 1 and contains(st[0].value, cs[0].term) and any(x[0] == "idx" and x[2] == (C(k),) for x in walk(st[0].value)) or \
+                (len(st) == 1 and st[0].value[0] == "call" and st[0].value[1][2] == "get" and st[0].value[2][:1] == (C(k),)
+                 and contains(st[0].value, cs[0].term))
+            run.ob("multinet.prepare_ctrl_variables_for_net|member-%s" % k, ok,
+                   "the member's %s entry defaults to what pandapipes.control.prepare_run_ctrl registered" % k, run.where(g, g.node))
     h = ix.func(MTS + ".init_time_series")
     run.analysed(h)
-    src = [U(n).replace(" ", "").replace('"', "'") for n in own_walk(h.node) if isinstance(n, ast.Assign)]
-    ok = "ts_variables['continue_on_divergence']=continue_on_divergence" in src and "ts_variables['verbose']=verbose" in src \
-        and "ts_variables['time_steps']=time_steps" in src
-    run.ob("multinet.init_time_series|forwards-arguments", ok,
-           "continue_on_divergence, verbose and the time steps reach ts_variables", run.where(h, h.node))
+    r = ANF(ix, h).run()
+    ret = r.returns()
+    _shape(len(ret) == 1, "multinet init_time_series has one return")
+    root = roots(ret[0].value)
+    for k in ("continue_on_divergence", "verbose"):
+        st = [s_ for s_ in r.stores() if s_.index == (C(k),) and roots(s_.base) & root]
+        run.ob("multinet.init_time_series|forwards|%s" % k, len(st) == 1 and st[0].value == ("n", k) and not st[0].cond,
+               "%s reaches the returned ts_variables" % k, run.where(h, h.node))
+    st = [s_ for s_ in r.stores() if s_.index == (C("time_steps"),) and roots(s_.base) & root]
+    run.ob("multinet.init_time_series|forwards|time_steps", len(st) == 1 and contains(st[0].value, ("n", "time_steps")),
+           "the time steps reach the returned ts_variables", run.where(h, h.node))
     run.floor(12)
+
+
+def _shape(ok, what):
+    if not ok:
+        raise AnalysisError("unrecognised shape: " + what)
 
 
 def r13_2(run):
@@ -153,30 +191,51 @@ def r13_2(run):
     f = ix.func(TS + ".run_loop")
     run.analysed(f)
     w = run.where(f, f.node)
-    loops = [n for n in own_walk(f.node) if isinstance(n, ast.For)]
-    ok = len(loops) == 1 and U(loops[0].iter).replace(" ", "").replace('"', "'") == "enumerate(ts_variables['time_steps'])"
+    ps = f.params()
+    _shape(len(ps) >= 4, "run_loop(net, ts_variables, run_control_fct, output_writer_fct)")
+    r = ANF(ix, f, param_alias=dict(zip(ps, ("net", "ts_variables", "run_control_fct", "output_writer_fct")))).run()
+    steps = ("idx", ("n", "ts_variables"), (C("time_steps"),))
+    loops = {lid: l for lid, l in r.loops.items()}
+    ok = len(loops) == 1
+    lid = next(iter(loops)) if ok else None
+    step_var = None
+    if ok:
+        it = loops[lid]["iter"]
+        if key(it) == key(("call", ("x", "builtins.enumerate"), (steps,), ())):
+            step_var = ("loop", lid, 1)
+        elif key(it) == key(steps):
+            step_var = ("loop", lid, 0)
+        ok = step_var is not None
     run.ob("run_loop|one-pass-over-time-steps", ok, "run_loop iterates once over ts_variables['time_steps']", w)
     if ok:
-        body = loops[0].body
-        rts = [c for s in body for c in calls(s) if callee_name(c) == "run_time_step"]
-        ok2 = len(rts) == 1 and [U(a) for a in rts[0].args] == ["net", "time_step", "ts_variables", "run_control_fct", "output_writer_fct"]
-        # not nested in a conditional
-        direct = any(isinstance(s, ast.Expr) and isinstance(s.value, ast.Call) and callee_name(s.value) == "run_time_step" for s in body)
-        run.ob("run_loop|run_time_step-once-per-step", ok2 and direct,
-               "run_time_step is called exactly once per step with the unchanged ts_variables", w)
-        stores = [n for n in ast.walk(loops[0]) if isinstance(n, (ast.Assign, ast.AugAssign))]
-        tg = [U(t) for n in stores for t in (n.targets if isinstance(n, ast.Assign) else [n.target])]
-        bad = [t for t in tg if t.startswith("net") or t.startswith("ts_variables")]
-        run.ob("run_loop|no-state-on-net", not bad, "the loop stores nothing on the net or in ts_variables", w, detail=str(bad))
-        kw = [t for t in tg if t.startswith("kwargs[")]
-        run.ob("run_loop|only-transient-counter-injected", kw in ([], ["kwargs['simulation_time_step']"], ['kwargs["simulation_time_step"]']),
+        rts = [c for c in r.calls() if c.fn[0] == "x" and c.fn[1].endswith("run_time_step")]
+        ok2 = len(rts) == 1 and rts[0].loops == (lid,) and not rts[0].cond
+        if ok2:
+            a_ = _bound(rts[0], ("net", "time_step", "ts_variables", "run_control_fct", "output_writer_fct"))
+            ok2 = a_.get("net") == ("n", "net") and a_.get("time_step") == step_var and a_.get("ts_variables") == ("n", "ts_variables") \
+                and a_.get("run_control_fct") == ("n", "run_control_fct") and a_.get("output_writer_fct") == ("n", "output_writer_fct")
+        run.ob("run_loop|run_time_step-once-per-step", ok2,
+               "run_time_step is called exactly once per step, unconditionally, with the step and the unchanged ts_variables", w)
+        bad = [s_ for s_ in r.stores() if key(base_of(s_.base)) in (key(("n", "net")), key(("n", "ts_variables")))
+               or (s_.base[0] in ("idx", "attr") and any(x in (("n", "net"), ("n", "ts_variables")) for x in walk(s_.base)))]
+        mut = [c for c in r.calls() if c.fn[0] == "attr" and c.fn[2] in ("update", "pop", "clear", "setdefault", "append")
+               and any(x in (("n", "net"), ("n", "ts_variables")) for x in walk(c.fn[1]))]
+        run.ob("run_loop|no-state-on-net", not bad and not mut, "the loop stores nothing on the net or in ts_variables", w,
+               detail=str([show(s_.base)[:60] for s_ in bad]))
+        kw = sorted({s_.index[0][1] for s_ in r.stores() if s_.base[0] == "n" and s_.base[1] == "kwargs" and s_.index[0][0] == "c"} |
+                    {"<computed>" for s_ in r.stores() if key(base_of(s_.base)) == key(("n", "kwargs")) and s_.index[0][0] != "c"})
+        run.ob("run_loop|only-transient-counter-injected", kw in ([], ["simulation_time_step"]),
                "the only keyword injected per step is the transient step counter", w, detail=str(kw))
+    rl = ix.func(TS + ".run_loop")
     for q in (TS + ".run_timeseries", MTS + ".run_timeseries"):
         g = ix.func(q)
         run.analysed(g)
-        rl = [c for c in calls(g.node) if callee_name(c) == "run_loop"]
-        run.ob("%s|uses-run_loop" % q.split(".", 1)[1], len(rl) == 1 and U(rl[0].args[1]) == "ts_variables",
-               "the driver delegates the step loop to run_loop with its ts_variables", run.where(g, g.node))
+        rg = ANF(ix, g).run()
+        cs = [c for c in rg.calls() if c.fn == ("f", rl.qualname)]
+        init = [c for c in rg.calls() if c.fn[0] == "f" and c.fn[1].endswith(".init_time_series")]
+        ok = len(cs) == 1 and len(init) == 1 and len(cs[0].args) >= 2 and key(base_of(cs[0].args[1])) == key(init[0].term)
+        run.ob("%s|uses-run_loop" % q.split(".", 1)[1], ok,
+               "the driver delegates the step loop to run_loop with the ts_variables it initialised", run.where(g, g.node))
     run.floor(6)
 
 
